@@ -11,6 +11,7 @@ import (
 func init() {
 	vHarnesses["VerifC14History"] = VerifC14History
 	vHarnesses["VerifC14Untouched"] = VerifC14Untouched
+	vHarnesses["VerifC14TwoMarkers"] = VerifC14TwoMarkers
 }
 
 func onlyDigits(v string) string {
@@ -68,4 +69,23 @@ func VerifC14Untouched() {
 	out, err := updateRules(v, "2026", []byte(l+"\n"))
 	vReach("updated")
 	vAssert(err == nil && string(out) == l+"\n", "C14 lines without a marker are byte-identical")
+}
+
+// C14: a line may carry more than one marker (the SecAction line of crs-setup.conf shows ver:'OWASP_CRS/V' and
+// setvar:tx.crs_setup_version=DIGITS next to each other): EVERY marker on the line shows the new version.
+func VerifC14TwoMarkers() {
+	// the version the earlier run wrote is one of a few spellings (job parameter), the new version is symbolic
+	v1 := []string{"4.0.0", "4.1.0-rc1", "v4.2.0", "4.3.0+b5"}[vParam("prev")]
+	v2 := vNondetStrOf("v2", 8, "0123456789.-+vRCrcab")
+	vAssume(accepted(v2))
+	line := func(v string) string {
+		if vParam("shape") == 0 {
+			return "    ver:'OWASP_CRS/" + v + "',setvar:tx.crs_setup_version=" + onlyDigits(v) + "\""
+		}
+		return "    setvar:tx.crs_setup_version=" + onlyDigits(v) + ",ver:'OWASP_CRS/" + v + "'\""
+	}
+	out, err := updateRules(v2, "2026", []byte(line(v1)+"\n"))
+	vReach("one-run")
+	vAssert(err == nil, "C14 the run does not fail")
+	vAssert(string(out) == line(v2)+"\n", "C14 every marker on a line shows the new version")
 }
